@@ -346,7 +346,7 @@ theorem denial_step {env : Env} (hc : UpClean env) (n : Nat)
       · exact ihJ _ _ hf
       · exact ⟨r0.name, List.suffix_refl _, n, d + 1, md, hmd, Or.inr ⟨hx, hno⟩⟩
     · rcases verifyDefaultRrset_insecure_suffix _ _ _ _ _ _ hv.symm with
-        ⟨zone, hz, hf⟩ | ⟨s, mk, k, _, hsig, hmk, hk, _, hkn, hkp⟩
+        ⟨zone, hz, hf⟩ | ⟨s, mk, k, _, hsig, _, hmk, hk, _, hkn, hkp⟩
       · obtain ⟨zone', hz', hd⟩ := ihJ _ _ hf
         exact ⟨zone', hz'.trans hz, hd⟩
       · -- inherited from an Insecure DNSKEY, owned by the signer, of the answer to "<signer> DNSKEY";
@@ -402,6 +402,55 @@ theorem insecure_implies_denial {env : Env} (hc : UpClean env)
     {r : Rec} (hr : r ∈ m.sec sec) (hp : r.proof = .insecure) :
     ∃ zone, zone <:+ r.name ∧ DsDenied env zone :=
   (denial_all hc fuel).1 d q m h sec hsec r hr hp
+
+/-- **… and for a DS RRset the zone is a *proper* ancestor** (the parent side of the cut; since fix 4f49cf9).  An
+Insecure record of a DS RRset (the DS record or the RRSIG covering it) at a non-root owner is justified by a validated
+denial / unsupported DS of a zone strictly above its owner: a DS RRset without RRSIG is Bogus, and an RRSIG over it must
+name a proper ancestor as signer. -/
+theorem insecure_ds_implies_denial_above {env : Env} (hc : UpClean env)
+    {fuel d : Nat} {q : Query} {m : Msg} (h : validate env fuel d q = .ok m) {sec : Nat} (hsec : sec < 3)
+    {r : Rec} (hr : r ∈ m.sec sec) (hp : r.proof = .insecure) (ht : r.gtype = tDS) (hroot : r.name ≠ []) :
+    ∃ zone, zone <:+ r.name ∧ zone ≠ r.name ∧ DsDenied env zone := by
+  cases fuel with
+  | zero => simp [validate] at h
+  | succ n =>
+    unfold validate at h
+    obtain ⟨m0, hup, hm⟩ := verifyResponse_ok _ _ _ _ _ h
+    have hm' := verifyMsg_ok _ _ _ _ _ _ _ hm
+    have hrel : m.sec sec = relabel (m0.sec sec)
+        (verdicts env (validate env n (d + 1)) (d + 1) q (env.up q).qid sec (m0.sec sec)) := by
+      subst hm'
+      match sec, hsec with
+      | 0, _ => rfl
+      | 1, _ => rfl
+      | 2, _ => rfl
+    rw [hrel] at hr
+    obtain ⟨i, r0, hr0, hrr⟩ := relabel_mem _ _ _ hr
+    have hind : r0.proof = .indet := upMsg_clean hc hup sec r0 hr0
+    obtain ⟨hgk, _, _⟩ := relabelOne_gkey (m0.sec sec)
+      (verdicts env (validate env n (d + 1)) (d + 1) q (env.up q).qid sec (m0.sec sec)) i r0
+    rw [← hrr] at hgk
+    have hname : r.name = r0.name := congrArg Prod.fst hgk
+    have htype : r0.gkey.2 = tDS := by
+      have : r.gkey.2 = r0.gkey.2 := congrArg Prod.snd hgk
+      rw [← this]; exact ht
+    obtain ⟨idx, hl⟩ := relabelOne_proof _ _ i r0 .insecure (by simp [hind]) (hrr ▸ hp)
+    obtain ⟨hv, _⟩ := verdicts_lookup _ _ _ _ _ _ _ _ _ hl
+    unfold verifyGroup at hv
+    dsimp only at hv
+    have hgn : r0.gkey.1 = r0.name := rfl
+    rw [hname]
+    rw [if_neg (by rw [htype]; decide)] at hv
+    obtain ⟨s, mk, k, _, hsig, hne, hmk, hk, _, hkn, hkp⟩ :=
+      verifyDefaultRrset_insecure_ds _ _ _ _ _ _ htype hv.symm
+    obtain ⟨zone, hz, hd⟩ := (denial_all hc n).1 _ _ _ hmk 0 (by omega) k (by simpa [Msg.sec] using hk) hkp
+    have hs1 : s.signer <:+ r0.name := hsig
+    have hs2 : s.signer ≠ r0.name := hne (by show r0.name ≠ []; rw [← hname]; exact hroot)
+    have hzs : zone <:+ s.signer := hz.trans (hkn ▸ List.suffix_refl _)
+    refine ⟨zone, hzs.trans hs1, ?_, hd⟩
+    intro heq
+    have hz' : r0.name <:+ s.signer := heq ▸ hzs
+    exact hs2 (List.IsSuffix.eq_of_length_le hs1 hz'.length_le)
 
 /-! ## no panic -/
 
@@ -893,5 +942,28 @@ zone cut at or above `www.u.` with a validated denial of its DS -/
 example : ∃ zone, zone <:+ ["www", "u"] ∧ DsDenied (envForeign traceInsecureZone) zone :=
   insecure_implies_denial (upClean_of_up _ traceInsecureZone rfl (by decide))
     ex_insecure_zone (sec := 0) (by omega) (r := ins' au) (by simp [Msg.sec]) rfl
+
+/-! ### regression example of the repaired finding F11 (DS RRset signed by its owner) -/
+
+namespace Ex
+/-- `u.` is an unsigned zone that publishes a DNSKEY (`ku`, Insecure: `u. DS` is a validated NSEC denial).  The answer
+to `p.u. DS` carries a forged DS RRset *at `u.`* — data of the signed parent, the root — with an RRSIG that names the
+child `u.` itself as signer.  Record ids: dsX 60, sigX 61. -/
+def dsX : Rec := { name := ["u"], rtype := 43, rid := 60, tag := 3, alg := 15, algSupp := true, digSupp := true }
+def sigX : Rec := { name := ["u"], rtype := 46, rid := 61, covered := 43, signer := ["u"], labels := 1 }
+def qPU : Query := ⟨["p", "u"], 43⟩
+def traceDsByOwner : List (Query × UpOut) :=
+  [(qPU, msg [dsX, sigX]), (⟨["u"], 48⟩, msg [ku]),
+   (⟨["u"], 43⟩, .ok { rcode := 0, an := [], ns := [nsecU, sigN], ad := [] }), (qKr, msg [kr, sigKr]),
+   (⟨["u"], 2⟩, msg [u])]
+end Ex
+
+open Ex in
+/-- (was `ds_signed_by_owner_inherits_insecure`, fix 4f49cf9) the forged DS RRset at `u.` whose RRSIG names the child
+`u.` itself as signer: the RRSIG is not tried, the DS record comes back Bogus (the response as such is accepted
+because the query name `p.u.` lies in the provably insecure zone `u.`) -/
+theorem regression_ds_signed_by_owner :
+    validate (envForeign traceDsByOwner) 27 0 qPU = .ok { rcode := 0, an := [bog' dsX, sigX], ns := [], ad := [] } := by
+  decide
 
 end HickoryVerif.C07
